@@ -22,7 +22,7 @@ TECHNIQUE = 'inverse-physical-law oracle over random parameter sets, per-branch 
 RULE = ('parameter sets over physical ranges x 25 points each; non-trivial = set exercising a non-default branch (lead != 0, T < 0, initial '
         'voltage != 0, gain != 1, voltage excitation); distinct = rounded parameter tuple')
 ASSUMPTIONS = ['tolerance 1e-6 relative with a 1e-9 absolute floor near zero']
-REQUIRED = ['input_dtype_independence_calls', 'single_precision_points', 'rtd_cross_object_points', 'purity_calls', 'rtd_points', 'rtd_branch_point_sets', 'rtd_quartic_points', 'thermistor_points', 'strain_points', 'poly_points', 'table_points', 'through_channel',
+REQUIRED = ['repeated_scale_calls', 'through_channel_chained', 'input_dtype_independence_calls', 'single_precision_points', 'rtd_cross_object_points', 'purity_calls', 'rtd_points', 'rtd_branch_point_sets', 'rtd_quartic_points', 'thermistor_points', 'strain_points', 'poly_points', 'table_points', 'through_channel',
             'branch:rtd:2-wire', 'branch:rtd:3-wire', 'branch:rtd:4-wire', 'branch:thermistor:current', 'branch:thermistor:voltage'] + \
            ['branch:strain:%d' % c for c in (10183, 10184, 10185, 10188, 10189, 10271, 10272)]
 N = {'quick': 9600, 'thorough': 3000000}
@@ -82,13 +82,21 @@ def within(got, want):
     return np.abs(got - want) <= REL * np.abs(want) + ABS
 
 
-def through_channel(ctx, scale_desc, volts):
-    """Same scaling through NI_Scale properties on a real channel."""
+def through_channel(ctx, scale_desc, volts, chain=False):
+    """Same scaling through NI_Scale properties on a real channel. With chain=True the sensor scale takes its input from
+    an earlier Linear scale (a gain/offset calibration): the raw data is the inverse of that calibration."""
     from nptdms import TdmsFile
-    ctx.count('through_channel')
-    props = SG.graph_props([scale_desc])
+    ctx.count('through_channel_chained' if chain else 'through_channel')
+    volts = np.asarray(volts, dtype='f8')
+    raw = volts
+    graph = [scale_desc]
+    if chain:
+        slope, intercept = 0.5, float(np.min(np.abs(volts))) * 0.25
+        raw = (volts - intercept) / slope
+        graph = [dict(kind='Linear', slope=slope, intercept=intercept, src=SG.RAW), dict(scale_desc, src=0)]
+    props = SG.graph_props(graph)
     rng = random.Random(0)
-    segs = M.build_file(rng, [('g', 'c', 'f64', len(volts), props)], nseg=1, nchunks=(1,), values_fn=lambda p, t, n: np.asarray(volts, dtype='f8'))
+    segs = M.build_file(rng, [('g', 'c', 'f64', len(volts), props)], nseg=1, nchunks=(1,), values_fn=lambda p, t, n: raw)
     return TdmsFile.read(io.BytesIO(M.encode_file(segs)[0]))['g']['c'][:]
 
 
@@ -150,7 +158,8 @@ def rtd(case, ctx, rng):
         if case['k'] != 'rtd0':
             ctx.violation('rtd/single-precision/raises/%s' % util.exc_key(ex), {'exc': util.exc_detail(ex)})
     desc = dict(kind='RTD', current=current, r0=r0, a=a, b=b, c=c, lead=lead, config=config, src=SG.RAW)
-    for label, fn in (('direct', lambda: pure_call(ctx, sc, volts, 'rtd')), ('channel', lambda: through_channel(ctx, desc, volts))):
+    for label, fn in (('direct', lambda: pure_call(ctx, sc, volts, 'rtd')), ('channel', lambda: through_channel(ctx, desc, volts)),
+                      ('chained-channel', lambda: through_channel(ctx, desc, volts, chain=True))):
         try:
             got = fn()
         except Exception as ex:
@@ -203,7 +212,8 @@ def thermistor(case, ctx, rng):
     ctx.sample({'case': case, 'params': params}, limit=1)
     sc = S.ThermistorScaling(exc, value, config, r1, lead, a_, b_, c_, offset, SG.RAW)
     desc = dict(kind='Thermistor', exc_type=exc, exc_value=value, config=config, r1=r1, lead=lead, a=a_, b=b_, c=c_, t_offset=offset, src=SG.RAW)
-    for label, fn in (('direct', lambda: pure_call(ctx, sc, volts, 'thermistor')), ('channel', lambda: through_channel(ctx, desc, volts))):
+    for label, fn in (('direct', lambda: pure_call(ctx, sc, volts, 'thermistor')), ('channel', lambda: through_channel(ctx, desc, volts)),
+                      ('chained-channel', lambda: through_channel(ctx, desc, volts, chain=True))):
         try:
             got = fn()
         except Exception as ex:
@@ -260,7 +270,8 @@ def strain(case, ctx, rng):
     ctx.sample({'case': case, 'params': params}, limit=1)
     sc = S.StrainScaling(config, nu, rg, rl, vinit, gf, gain, vex, SG.RAW)
     desc = dict(kind='Strain', config=config, poisson=nu, gage_r=rg, lead=rl, v_init=vinit, gf=gf, gain=gain, v_ex=vex, src=SG.RAW)
-    for label, fn in (('direct', lambda: pure_call(ctx, sc, vo, 'strain')), ('channel', lambda: through_channel(ctx, desc, vo))):
+    for label, fn in (('direct', lambda: pure_call(ctx, sc, vo, 'strain')), ('channel', lambda: through_channel(ctx, desc, vo)),
+                      ('chained-channel', lambda: through_channel(ctx, desc, vo, chain=True))):
         try:
             got = fn()
         except Exception as ex:
@@ -286,7 +297,13 @@ def poly(case, ctx, rng):
     ctx.evaluation(len(xs))
     ctx.count('poly_points', len(xs))
     ctx.distinct(('poly', nc, t, tuple(round(c, 6) for c in coeffs[:3])))
-    got = S.PolynomialScaling(coeffs, SG.RAW).scale(xs.copy())
+    psc = S.PolynomialScaling(coeffs, SG.RAW)
+    got = psc.scale(xs.copy())
+    for rep in range(2):
+        ctx.count('repeated_scale_calls')
+        if not np.array_equal(np.asarray(psc.scale(xs.copy())), np.asarray(got), equal_nan=True):
+            ctx.violation('polynomial/repeated-call-differs', {'coeffs': coeffs, 'call': rep + 2})
+            break
     for x, g in zip(xs.tolist(), np.asarray(got, dtype='f8').tolist()):
         X = Fraction(x)
         exact, mag = Fraction(0), Fraction(0)
@@ -314,8 +331,16 @@ def table(case, ctx, rng):
     ctx.evaluation(len(pts))
     ctx.count('table_points', len(pts))
     ctx.distinct(('table', desc_order, tuple(xs)))
-    got = S.TableScaling(np.array(ys), np.array(xs), SG.RAW).scale(pts.copy())
+    tsc = S.TableScaling(np.array(ys), np.array(xs), SG.RAW)
+    got = tsc.scale(pts.copy())
     want = SG.table_interp(pts, xs, ys)
+    # the same object is used for every chunk / window of a channel: later calls must answer like the first
+    for rep in range(3):
+        again = tsc.scale(pts.copy())
+        ctx.count('repeated_scale_calls')
+        if not np.array_equal(np.asarray(again), np.asarray(got), equal_nan=True):
+            ctx.violation('table/repeated-call-differs/%s' % ('descending' if desc_order else 'ascending'), {'inputs(scaled)': xs, 'outputs(pre-scaled)': ys, 'call': rep + 2})
+            break
     scale_ = max(abs(v) for v in ys) + 1e-300
     ok = np.abs(np.asarray(got) - want) <= 1e-12 * scale_
     if not ok.all():
